@@ -70,6 +70,27 @@ def main(argv):
             states += r.distinct
             gen += r.generated
             samples.append({"run": "Names.tla model checking", "states": r.distinct, "depth": r.depth})
+        if not args.replay and not quick:
+            # thorough-tier extra: Apalache discharges the inductive invariant (Init => IndInv, IndInv /\ Next => IndInv', IndInv => Safe)
+            import shutil
+            import subprocess
+
+            apa = shutil.which("apalache-mc")
+            obligations = [("Init=>IndInv", ["--init=Init", "--inv=IndInv", "--length=0"]),
+                           ("IndInv/\\Next=>IndInv'", ["--init=IndInit", "--inv=IndInv", "--length=1"]),
+                           ("IndInv=>Safe", ["--init=IndInit", "--inv=Safe", "--length=0"])]
+            done = 0
+            if apa:
+                for name, opts in obligations:
+                    r_ = subprocess.run([apa, "check"] + opts + ["--out-dir=" + os.path.join(d, "apa"), "NamesApa.tla"], cwd=os.path.join(tlc.SPEC, "apalache"),
+                                        capture_output=True, text=True, timeout=1800)
+                    if "EXITCODE: OK" in r_.stdout:
+                        done += 1
+                    elif "EXITCODE: ERROR (12)" in r_.stdout:
+                        rep.violation("design/inductive-invariant/" + name, {"model": "spec/apalache/NamesApa.tla"}, detail={"apalache": r_.stdout[-600:]})
+                    else:
+                        raise tlc.MachineryError("apalache failed on %s: %s" % (name, (r_.stdout + r_.stderr)[-800:]))
+            samples.append({"run": "Apalache inductive invariant (NamesApa.tla)", "obligations": len(obligations), "discharged": done, "available": bool(apa)})
         runs = []
         if args.replay:
             with open(args.replay) as f:
